@@ -51,6 +51,19 @@ def point_sample_sum(a, s_old, m, s_new):
     return float(out.sum())
 
 
+def exceeds(err, tol) -> bool:
+    """`err > tol` that also fires on NaN / inf (a NaN difference is a failure, never a pass)"""
+    return not (float(err) <= float(tol))
+
+
+def maxdiff(a, b) -> float:
+    a, b = np.asarray(a), np.asarray(b)
+    if a.shape != b.shape:
+        return float("inf")
+    d = np.abs(a - b)
+    return float("nan") if np.isnan(d).any() else float(d.max()) if d.size else 0.0
+
+
 def arr_of(m):
     a = m.array
     return np.asarray(a.compute() if hasattr(a, "compute") else a)
@@ -129,7 +142,7 @@ class C16(Property):
         c = {"kind": kind, "seed": rng.randint(0, 10 ** 6)}
         if kind == "dp_interp":
             c.update(gpts=[rng.randint(4, 14), rng.randint(4, 14)], sampling=[rng.choice([0.05, 0.08, 0.1]), rng.choice([0.05, 0.08, 0.1])],
-                     new=rng.choice(["uniform", "float", "float", "float", "gpts"]), new_sampling=rng.choice([0.03, 0.06, 0.11, 0.2]),
+                     new=rng.choice(["uniform", "float", "float", "float", "gpts", "two-floats", "float32"]), lazy=rng.random() < 0.3, new_sampling=rng.choice([0.03, 0.06, 0.11, 0.2]),
                      new_gpts=[rng.randint(3, 16), rng.randint(3, 16)],
                      members=rng.choice(["random", "random", "with-zero", "sparse"]), shifted=rng.random() < 0.7)
         elif kind == "img_interp":
@@ -137,7 +150,8 @@ class C16(Property):
             c.update(gpts=g, sampling=[rng.choice([0.1, 0.2]), rng.choice([0.1, 0.2])],
                      new_gpts=rng.choice([g, g, [g[0] + rng.randint(1, 6), g[1] + rng.randint(1, 6)],
                                           [max(2, g[0] - rng.randint(1, 3)), max(2, g[1] - rng.randint(1, 3))], [2 * g[0], 2 * g[1]]]),
-                     complex=rng.random() < 0.4, ens=rng.choice([[], [2]]))
+                     complex=rng.random() < 0.4, ens=rng.choice([[], [2]]), route=rng.choice(["gpts", "sampling", "sampling"]),
+                     lazy=rng.random() < 0.3)
         elif kind == "lazy_filter":
             c.update(scan=[rng.randint(8, 16), rng.randint(8, 16)], chunk=rng.choice([3, 4, 5]), scan_sampling=rng.choice([0.1, 0.2, 0.25]),
                      sigma=rng.choice([0.3, 0.5, 0.8]), what=rng.choice(["images", "source"]))
@@ -162,7 +176,18 @@ class C16(Property):
                 a[2, 1, 1] = 1.0
             d = DiffractionPatterns(a, sampling=tuple(c["sampling"]), fftshift=c["shifted"], metadata={"energy": 100e3},
                                     ensemble_axes_metadata=[OrdinalAxis(values=(0, 1, 2))])
-            if c["new"] == "gpts":
+            if c.get("lazy"):
+                import dask.array as da
+                d = DiffractionPatterns(da.from_array(a, chunks=(2,) + tuple(c["gpts"])), sampling=tuple(c["sampling"]), fftshift=c["shifted"],
+                                        metadata={"energy": 100e3}, ensemble_axes_metadata=[OrdinalAxis(values=(0, 1, 2))])
+            if c["new"] in ("two-floats", "float32"):
+                arg = (float(c["new_sampling"]), float(c["new_sampling"]) * 1.25) if c["new"] == "two-floats" else np.float32(c["new_sampling"])
+                try:
+                    r = d.interpolate(sampling=arg)
+                except ValueError as e:
+                    ctx.violation(f"interpolate-documented-sampling-form-rejected:{c['new']}", c, {"error": str(e)})
+                    return False
+            elif c["new"] == "gpts":
                 try:
                     r = d.interpolate(gpts=tuple(c["new_gpts"]))
                 except TypeError as e:
@@ -173,13 +198,13 @@ class C16(Property):
             b = arr_of(r)
             s0, s1 = a.sum(axis=(-2, -1)), b.sum(axis=(-2, -1))
             bad = [i for i in range(3) if not (np.isfinite(s1[i]) and abs(s1[i] - s0[i]) <= 1e-5 * max(abs(s0[i]), 1e-12))]
-            ctx.count(f"conf-dp:{c['new']}:{c['members']}")
+            ctx.count(f"conf-dp:{c['new']}:{c['members']}:lazy={bool(c.get('lazy'))}")
             if bad:
                 zero = all(s0[i] == 0 for i in bad)
                 # the recorded finding is ONLY: the bilinear point samples at the new pixel centres of that member really are all
                 # zero (recomputed here independently of abTEM) and the returned pattern is exactly zero
                 lost = all(s0[i] != 0 and np.isfinite(s1[i]) and s1[i] == 0 and np.all(b[i] == 0)
-                           and abs(point_sample_sum(a[i], d.sampling, b.shape[-2:], r.sampling)) <= 1e-12 * abs(s0[i]) for i in bad)
+                           and abs(point_sample_sum(a[i], d.sampling, b.shape[-2:], r.sampling)) <= 2e-6 * abs(s0[i]) for i in bad)  # float32 node weights inside abTEM
                 ctx.violation("interpolate-zero-pattern-not-preserved" if zero else
                               "interpolate-total-lost-when-resampled-sum-zero" if lost else "interpolate-total-not-preserved", c,
                               {"members": bad, "old_sums": s0.tolist(), "new_sums": [float(v) if np.isfinite(v) else "nan" for v in s1]})
@@ -191,22 +216,46 @@ class C16(Property):
             if c["complex"]:
                 a = a + 1j * rng.normal(size=shape)
             ens = [OrdinalAxis(values=tuple(range(n))) for n in c["ens"]]
-            im = Images(a, sampling=tuple(c["sampling"]), ensemble_axes_metadata=ens)
-            r = im.interpolate(gpts=tuple(c["new_gpts"]), method="fft")
+            if c.get("lazy"):
+                import dask.array as da
+                a_in = da.from_array(a, chunks=(1,) * len(c["ens"]) + (max(2, c["gpts"][0] // 2), max(2, c["gpts"][1] // 2)))
+            else:
+                a_in = a
+            im = Images(a_in, sampling=tuple(c["sampling"]), ensemble_axes_metadata=ens)
+            route = c.get("route", "gpts")
+            same = list(c["new_gpts"]) == list(c["gpts"])
+            if route == "sampling":
+                # the documented `sampling=` form: the target grid is given by its pixel size (own sampling = same grid)
+                new_s = tuple(c["sampling"]) if same else tuple(sx * g / n for sx, g, n in zip(c["sampling"], c["gpts"], c["new_gpts"]))
+                r = im.interpolate(sampling=new_s[0] if new_s[0] == new_s[1] and c["seed"] % 2 else new_s, method="fft")
+            else:
+                r = im.interpolate(gpts=tuple(c["new_gpts"]), method="fft")
             b = arr_of(r)
             scale = float(np.abs(a).max())
-            ctx.count(f"conf-img:{'same' if list(c['new_gpts']) == list(c['gpts']) else 'resized'}:{'complex' if c['complex'] else 'real'}")
-            if list(c["new_gpts"]) == list(c["gpts"]):
-                if b.shape != a.shape or np.abs(b - a).max() > 2e-5 * scale:
-                    ctx.violation("fourier-same-grid-not-identity", c, {"max_abs_diff": float(np.abs(b - a).max())})
+            ctx.count(f"conf-img:{route}:{'same' if same else 'resized'}:{'complex' if c['complex'] else 'real'}:lazy={bool(c.get('lazy'))}")
+            if same:
+                if b.shape != a.shape:
+                    # recorded finding: only the `sampling=` route, and only when float64 `ceil((n*d)/d)` itself exceeds n on that axis
+                    pred = [int(np.ceil((g * sx) / sx)) for g, sx in zip(c["gpts"], c["sampling"])]
+                    known = route == "sampling" and list(b.shape[-2:]) == pred and pred != list(c["gpts"]) and b.shape[:-2] == a.shape[:-2]
+                    ctx.violation("images-interpolate-own-sampling-changes-grid" if known else f"fourier-same-grid-changes-shape:{route}", c,
+                                  {"old": list(a.shape), "new": list(b.shape), "ceil_of_extent_over_sampling": pred})
+                    if not known:
+                        return False
+                    same = False  # the mean / extent checks below still apply to the enlarged grid
+                elif exceeds(maxdiff(b, a), 2e-5 * scale):
+                    ctx.violation("fourier-same-grid-not-identity", c, {"max_abs_diff": maxdiff(b, a)})
                     return False
+            elif route == "gpts" and list(b.shape[-2:]) != list(c["new_gpts"]):
+                ctx.violation("fourier-interpolation-wrong-shape", c, {"new": list(b.shape)})
+                return False
             m0, m1 = a.mean(axis=(-2, -1)), b.mean(axis=(-2, -1))
-            if np.abs(m1 - m0).max() > 2e-5 * scale:
+            if exceeds(maxdiff(m1, m0), 2e-5 * scale):
                 ctx.violation("fourier-interpolation-changes-mean", c, {"old_mean": np.abs(m0).reshape(-1)[:2].tolist(), "new_mean": np.abs(m1).reshape(-1)[:2].tolist()})
                 return False
             ext0 = [g * s for g, s in zip(c["gpts"], c["sampling"])]
             ext1 = [g * s for g, s in zip(r.shape[-2:], r.sampling)]
-            if max(abs(x - y) for x, y in zip(ext0, ext1)) > 1e-9:
+            if exceeds(max(abs(x - y) for x, y in zip(ext0, ext1)), 1e-9):
                 ctx.violation("fourier-interpolation-changes-extent", c, {"old": ext0, "new": ext1})
                 return False
             return True
@@ -224,8 +273,8 @@ class C16(Property):
                 eager = arr_of(mk(a).gaussian_source_size(c["sigma"]))
                 lazy = arr_of(mk(da.from_array(a, chunks=(c["chunk"], c["chunk"], 4, 4))).gaussian_source_size(c["sigma"]))
             ctx.count(f"conf-lazy-filter:{c['what']}")
-            if eager.shape != lazy.shape or np.abs(eager - lazy).max() > 2e-5 * float(np.abs(eager).max()):
-                ctx.violation(f"lazy-filter-differs-from-eager:{c['what']}", c, {"max_abs_diff": float(np.abs(eager - lazy).max())})
+            if exceeds(maxdiff(eager, lazy), 2e-5 * float(np.abs(eager).max())):
+                ctx.violation(f"lazy-filter-differs-from-eager:{c['what']}", c, {"max_abs_diff": maxdiff(eager, lazy)})
                 return False
             return True
         # source size filtering commutes with integration
@@ -250,12 +299,57 @@ class C16(Property):
             two = arr_of(p.integrate_radial(0.0, float(hi)).gaussian_filter(sig))
         ctx.count(f"conf-{c['kind']}:lazy={bool(c.get('lazy'))}")
         scale = float(np.abs(two).max()) or 1.0
-        if one.shape != two.shape or np.abs(one - two).max() > 2e-5 * scale:
-            ctx.violation(f"source-size-does-not-commute:{c['kind']}", c, {"max_abs_diff": float(np.abs(one - two).max()), "scale": scale})
+        if exceeds(maxdiff(one, two), 2e-5 * scale) or not np.isfinite(scale):
+            ctx.violation(f"source-size-does-not-commute:{c['kind']}", c, {"max_abs_diff": maxdiff(one, two), "scale": scale})
             return False
         return True
 
+    def selftest_nan(self, ctx: Ctx):
+        """NaN-injection self-test: every oracle kind must report a violation when the code under test returns NaN"""
+        import scipy.ndimage as ndi
+        import abtem.measurements as M
+        from c14 import patched
+
+        def nanify(f):
+            def g(*a, **k):
+                r = np.array(f(*a, **k), copy=True)
+                r = r.astype(np.complex128 if np.iscomplexobj(r) else np.float64)
+                r.reshape(-1)[0] = np.nan
+                return r
+            return g
+
+        cases = {
+            "dp_interp": ({"kind": "dp_interp", "seed": 1, "gpts": [8, 8], "sampling": [0.1, 0.1], "new": "float", "new_sampling": 0.06,
+                           "members": "random", "shifted": True}, [(M.DiffractionPatterns, "_batch_interpolate_bilinear",
+                                                                    staticmethod(nanify(M.DiffractionPatterns._batch_interpolate_bilinear)))]),
+            "img_interp": ({"kind": "img_interp", "seed": 2, "gpts": [8, 8], "sampling": [0.1, 0.1], "new_gpts": [12, 12], "complex": False,
+                            "ens": [], "route": "gpts"}, [(M, "fft_interpolate", nanify(M.fft_interpolate))]),
+            "lazy_filter": ({"kind": "lazy_filter", "seed": 3, "scan": [8, 8], "chunk": 4, "scan_sampling": 0.2, "sigma": 0.3, "what": "images"},
+                            [(ndi, "gaussian_filter", nanify(ndi.gaussian_filter))]),
+            "source_dp": ({"kind": "source_dp", "seed": 4, "scan": [5, 5], "scan_sampling": 0.2, "gpts": [6, 6], "sigma": 0.3, "inner": 0.0,
+                           "width": 20.0}, [(ndi, "gaussian_filter", nanify(ndi.gaussian_filter))]),
+            "source_polar": ({"kind": "source_polar", "seed": 5, "scan": [5, 5], "scan_sampling": 0.2, "gpts": [6, 6], "sigma": 0.3, "inner": 0.0,
+                              "width": 20.0}, [(ndi, "gaussian_filter", nanify(ndi.gaussian_filter))]),
+        }
+        for kind, (case, patches) in cases.items():
+            scratch = Ctx("C16-selftest", ctx.tier, ctx.seed)
+            clean = Ctx("C16-selftest", ctx.tier, ctx.seed)
+            self.oracle(clean, dict(case))
+            saved = [(o, n, o.__dict__[n]) for o, n, _ in patches]  # raw descriptors (staticmethod objects stay staticmethods)
+            try:
+                for o, n, v in patches:
+                    setattr(o, n, v)
+                self.oracle(scratch, dict(case))
+            finally:
+                for o, n, v in saved:
+                    setattr(o, n, v)
+            if clean.violations or not scratch.violations:
+                raise RuntimeError(f"oracle self-test failed for kind {kind}: clean={len(clean.violations)} with-NaN={len(scratch.violations)} "
+                                   "(a NaN result must be reported, an unpatched run must pass)")
+            ctx.count(f"selftest-nan:{kind}:detected")
+
     def conformance(self, ctx: Ctx):
+        self.selftest_nan(ctx)
         for _ in range(ctx.n(150, 3000)):
             c = self.gen_conf(ctx)
             self.oracle(ctx, c)
